@@ -6,6 +6,7 @@ import (
 	"go/types"
 	"os"
 	"strings"
+	"sync"
 
 	"golang.org/x/tools/go/packages"
 	"golang.org/x/tools/go/ssa"
@@ -19,6 +20,7 @@ type Loader struct {
 	spkgs     map[string]*ssa.Package
 	funcs     map[string]*ssa.Function // relKey -> function
 	typeCache map[string]types.Type
+	mu        sync.Mutex
 	overlay   map[string][]byte
 }
 
